@@ -950,37 +950,33 @@ class Connection (EventMixin):
     return True
 
   def _incoming_stats_reply (self, ofp):
-    # This assumes that you don't receive multiple stats replies
-    # to different requests out of order/interspersed.
     if not ofp.is_last_reply:
       if ofp.type not in [of.OFPST_FLOW, of.OFPST_TABLE,
                                 of.OFPST_PORT, of.OFPST_QUEUE]:
         log.error("Don't know how to aggregate stats message of type " +
                   str(ofp.type))
-        self._previous_stats = []
+        self._previous_stats = [e for e in self._previous_stats
+                                if e[0] != (ofp.xid, ofp.type)]
         return
 
-    if len(self._previous_stats) != 0:
-      if ((ofp.xid == self._previous_stats[0].xid) and
-          (ofp.type == self._previous_stats[0].type)):
-        self._previous_stats.append(ofp)
-      else:
-        log.error("Was expecting continued stats of type %i with xid %i, " +
-                  "but got type %i with xid %i" %
-                  (self._previous_stats_reply.xid,
-                    self._previous_stats_reply.type,
-                    ofp.xid, ofp.type))
-        self._previous_stats = [ofp]
-    else:
-      self._previous_stats = [ofp]
+    # Parts are collected per request (xid and type), so that replies to
+    # different requests which arrive interspersed don't get mixed up or lost.
+    key = (ofp.xid, ofp.type)
+    s = None
+    for entry in self._previous_stats:
+      if entry[0] == key:
+        s = entry[1]
+        break
+    if s is None:
+      s = []
+      self._previous_stats.append((key, s))
+    s.append(ofp)
 
     if ofp.is_last_reply:
-      handler = statsHandlerMap.get(self._previous_stats[0].type, None)
-      s = self._previous_stats
-      self._previous_stats = []
+      self._previous_stats = [e for e in self._previous_stats if e[0] != key]
+      handler = statsHandlerMap.get(ofp.type, None)
       if handler is None:
-        log.warn("No handler for stats of type " +
-                 str(self._previous_stats[0].type))
+        log.warn("No handler for stats of type " + str(ofp.type))
         return
       handler(self, s)
 
